@@ -7,7 +7,7 @@ S = "src/state.rs"
 UNIT = Unit(
     name="dosc", uses="group_core_axioms, melpow::axiom_pow_difficulty",
     prelude=["core.rs", "raw.rs", "iter.rs", "crypto.rs", "state_abs.rs", "txmethods.rs", "num.rs", "melpow.rs"],
-    lemmas=["sums.rs", "iterlem.rs", "coinsview.rs", "header.rs", "txroot_opaque.rs", "seal_opaque.rs", "tips.rs", "apply.rs", "microergs.rs", "dosc.rs"],
+    lemmas=["sums.rs", "iterlem.rs", "coinsview.rs", "header.rs", "txroot_opaque.rs", "seal_opaque.rs", "tips.rs", "apply.rs", "microergs.rs", "chaininv.rs", "dosc.rs"],
     items=[
         TypeItem(S, "struct", "UnsealedState"),
         TypeItem(S, "enum", "StateError", derive="#[derive(Clone, Copy, PartialEq, Eq, Structural)]"),
